@@ -27,8 +27,11 @@ OthersSame(s, t, keep) ==
   \A v \in Users \ keep : t.open[v] = s.open[v] /\ t.closed[v] = s.closed[v] /\ t.wlp[v] = s.wlp[v]
 
 \* ----- C11 ---------------------------------------------------------------------------------------
+\* "lp" names the staked LP asset itself when it is (also) used as a reward asset: its flows' unclaimed funds sit in the
+\* same balance as the positions
+LpFlowFunds(o) == IF "lp" \in Rewards THEN SumOwed(FlowsOf(o, "lp")) ELSE Zero
 StateChecksC11(o) ==
-  << <<"C11.lp-balance=open+closed+flow-funds", o.lpbal = Staked(o)>> >>
+  << <<"C11.lp-balance=open+closed+flow-funds", o.lpbal = Staked(o) ++ LpFlowFunds(o)>> >>
 
 OpenChecks(s, t, u, r, dur, amt, expand) ==
   << <<"C11.position.grows-by-the-stated-amount", PosAmt(t, r, dur) = PosAmt(s, r, dur) ++ amt>>,
@@ -50,7 +53,7 @@ WithdrawChecks(s, t, u) ==
 \* ----- C12 ---------------------------------------------------------------------------------------
 StateChecksC12(o) ==
   << <<"C12.reward-balance-covers-funded-minus-claimed",
-        \A a \in Rewards : SumOwed(FlowsOf(o, a)) \preceq o.rbal[a]>>,
+        \A a \in Rewards : (SumOwed(FlowsOf(o, a)) ++ (IF a = "lp" THEN Staked(o) ELSE Zero)) \preceq o.rbal[a]>>,
      <<"C12.claimed<=funded", \A i \in DOMAIN o.flows : o.flows[i].claimed \preceq o.flows[i].funded>> >>
 
 \* a new flow appeared in t: its funded amount is what the contract received; the fee went to the collector
@@ -110,7 +113,11 @@ ClaimChecks(s, t, u, quoted, quoteOk, lastClaimEpoch) ==
         quoteOk => \A a \in Rewards : t.rw[u][a] -- s.rw[u][a] = quoted[a]>>,
      <<"C13.claim.second-claim-in-an-epoch-pays-nothing",
         lastClaimEpoch = s.epoch => \A a \in Rewards : t.rw[u][a] = s.rw[u][a]>>,
-     <<"C11.claim.positions-untouched", OthersSame(s, t, {}) /\ t.lpbal = s.lpbal>> >>
+     \* (a reward paid in the LP asset itself leaves the contract's LP balance for the claimer's wallet; positions stay)
+     <<"C11.claim.positions-untouched",
+        LET lpPaid == IF "lp" \in Rewards THEN t.rw[u]["lp"] -- s.rw[u]["lp"] ELSE Zero IN
+        /\ OthersSame(s, t, {u}) /\ t.open[u] = s.open[u] /\ t.closed[u] = s.closed[u]
+        /\ t.wlp[u] = s.wlp[u] ++ lpPaid /\ t.lpbal = s.lpbal -- lpPaid>> >>
 
 \* the (flow, epoch) pairs a claim made in epoch cur can pay for when the claimer's last claim was in epoch lastClaim
 \* (-1: never): the epochs after the last claim in which the flow runs
